@@ -443,3 +443,40 @@ VARIANTS += [
     dict(prop="C06", name="base-cross-shard-opens-per-shard-endpoint", expect="WHO-forward|Base::cross_shard_prss:endpoint",
          edits=[dict(file="ipa-core/src/protocol/context/mod.rs", find="self.sharding.cross_shard_prss().indexed(self.gate())", replace="self.inner.prss.indexed(self.gate())")]),
 ]
+
+ASF = "ipa-core/src/protocol/ipa_prf/boolean_ops/addition_sequential.rs"
+CSF = "ipa-core/src/protocol/ipa_prf/boolean_ops/comparison_and_subtraction_sequential.rs"
+ORF = "ipa-core/src/protocol/boolean/or.rs"
+IEF = "ipa-core/src/protocol/basics/if_else.rs"
+SHM = "ipa-core/src/protocol/basics/mul/semi_honest.rs"
+VARIANTS += [
+    # ---------------- C07 ----------------
+    dict(prop="C07", name="adder-carry-wrong-operand", expect="GADGET|bit_adder:carry",
+         edits=[dict(file=ASF, find="            .multiply(&(y + &*carry), ctx, record_id)", replace="            .multiply(&(y + x), ctx, record_id)")]),
+    dict(prop="C07", name="adder-output-after-carry-update", expect="GADGET|bit_adder:reads-before-write",
+         edits=[dict(file=ASF, find="    let output = x + y + &*carry;\n\n    *carry = &*carry\n        + (x + &*carry)\n            .multiply(&(y + &*carry), ctx, record_id)\n            .await?;\n\n    Ok(output)", replace="    *carry = &*carry\n        + (x + &*carry)\n            .multiply(&(y + &*carry), ctx, record_id)\n            .await?;\n\n    let output = x + y + &*carry;\n\n    Ok(output)")]),
+    dict(prop="C07", name="adder-output-reordered", benign=True,
+         edits=[dict(file=ASF, find="    let output = x + y + &*carry;", replace="    let output = x + &*carry + y;")]),
+    dict(prop="C07", name="subtractor-forgets-not", expect="GADGET|bit_subtractor:output",
+         edits=[dict(file=CSF, find="    let output = x + !(y + &*carry);", replace="    let output = x + (y + &*carry);")]),
+    dict(prop="C07", name="geq-starts-from-zero", expect="WIRE-carry|compare_geq:carry-in",
+         edits=[dict(file=CSF, find="    let mut carry = AdditiveShare::<Boolean>::share_known_value(&ctx, Boolean::ONE);\n    // We don't care about the subtraction", replace="    let mut carry = AdditiveShare::<Boolean>::share_known_value(&ctx, !Boolean::ONE);\n    // We don't care about the subtraction")]),
+    dict(prop="C07", name="gt-operands-swapped", expect="WIRE-carry|compare_gt:operand-order",
+         edits=[dict(file=CSF, find="    subtraction_circuit::<_, S, N>(ctx, record_id, x, y, &mut carry).await?;\n    Ok(carry)", replace="    subtraction_circuit::<_, S, N>(ctx, record_id, y, x, &mut carry).await?;\n    Ok(carry)")]),
+    dict(prop="C07", name="sat-sub-select-swapped", expect="WIRE-result|integer_sat_sub",
+         edits=[dict(file=CSF, find="        &carry,\n        &result,\n        &AdditiveShare::<S>::ZERO,", replace="        &carry,\n        &AdditiveShare::<S>::ZERO,\n        &result,")]),
+    dict(prop="C07", name="or-plus-ab", expect="GADGET|or",
+         edits=[dict(file=ORF, find="    let ab = a.multiply(b, ctx, record_id).await?;\n    Ok(-ab + a + b)\n}", replace="    let ab = a.multiply(b, ctx, record_id).await?;\n    Ok(ab + a + b)\n}")]),
+    dict(prop="C07", name="bool-or-plus-ab-mod2", benign=True,
+         edits=[dict(file=ORF, find="                Ok::<_, Error>(-ab + a + b)", replace="                Ok::<_, Error>(ab + a + b)")]),
+    dict(prop="C07", name="select-branches-swapped", expect="GADGET|select",
+         edits=[dict(file=IEF, find="    let false_value = B::Vectorized::from(false_value.clone());\n    let true_value = B::Vectorized::from(true_value.clone());", replace="    let (false_value, true_value) = (\n        B::Vectorized::from(true_value.clone()),\n        B::Vectorized::from(false_value.clone()),\n    );")]),
+    dict(prop="C07", name="mul-masks-swapped-still-cancel", benign=True,
+         edits=[dict(file=SHM, find="        + prss_left\n        - prss_right;", replace="        + prss_right\n        - prss_left;")]),
+    dict(prop="C07", name="mul-cross-term-duplicated", expect="POLY|sh_multiply:three-party-identity",
+         edits=[dict(file=SHM, find="        + a.right_arr().clone() * b.left_arr()", replace="        + a.right_arr().clone() * b.right_arr()")]),
+    dict(prop="C07", name="mul-send-right", expect="POLY|sh_multiply:send-left-recv-right",
+         edits=[dict(file=SHM, find="role.peer(Direction::Left))\n        .send(record_id, &z_left)", replace="role.peer(Direction::Right))\n        .send(record_id, &z_left)")]),
+    dict(prop="C07", name="adder-y-not-padded", expect="WIRE-loop|addition_circuit:zip",
+         edits=[dict(file=ASF, find="x.zip(y.chain(repeat(&AdditiveShare::ZERO))).enumerate()", replace="x.zip(y).enumerate()")]),
+]
